@@ -41,7 +41,8 @@ type replySpec struct {
 	Framing string `json:"framing"` // cl | chunked | close
 	BodyLen int    `json:"body_len"`
 	BodyTag uint64 `json:"body_tag"`
-	Writes  []int  `json:"writes,omitempty"` // sizes of the separate writes / chunks
+	Writes  []int  `json:"writes,omitempty"`                  // sizes of the separate writes / chunks
+	PauseMs int    `json:"pause_ms_between_writes,omitempty"` // slow stream: the proxy's periodic flusher ticks while the body is being relayed
 	Ann     []hdr  `json:"announced_trailers,omitempty"`
 	Unann   []hdr  `json:"unannounced_trailers,omitempty"`
 	body    []byte
@@ -320,12 +321,15 @@ func writeReply(cn net.Conn, method string, sp *replySpec) (closeAfter bool, err
 		writes = []int{len(body)}
 	}
 	off := 0
-	for _, n := range writes {
+	for wi, n := range writes {
 		if off+n > len(body) {
 			n = len(body) - off
 		}
 		if n <= 0 {
 			continue
+		}
+		if sp.PauseMs > 0 && wi > 0 {
+			time.Sleep(time.Duration(sp.PauseMs) * time.Millisecond)
 		}
 		piece := body[off : off+n]
 		off += n
